@@ -27,7 +27,6 @@ _ANCHORS: Optional[Dict[str, Set[str]]] = None
 # memory there changes what the anchored code sees
 EXTRA_SCOPE = {
     "C12": (PKG + "/config/hive_config.py", PKG + "/config/dispatcher_config.py"),
-    "C10": (PKG + "/config/hive_config.py",),
     "C11": (PKG + "/config/hive_config.py", PKG + "/config/sim.py"),
     "C15": (PKG + "/config/hive_config.py", PKG + "/config/sim.py", PKG + "/reporting/reporter.py"),
     "C20": (PKG + "/model/vehicle/schedules/__init__.py", PKG + "/model/vehicle/schedules/schedule.py"),
@@ -239,7 +238,7 @@ def after_run(ctx) -> None:
     if ctx.prop in ("C01", "C16"):
         pm_files = {rel for rel in ctx.repo.modules if rel.startswith(PKG) and not rel.startswith((PKG + "/resources", PKG + "/app"))}
     try:
-        cross_key(ctx, pm_files)
+        cross_key(ctx, set(files) | {f for f in EXTRA_SCOPE.get(ctx.prop, ()) if f in ctx.repo.modules})
     except Exception as e:
         ctx.soft_fail(f"hygiene: internal {type(e).__name__}: {e}")
     try:
